@@ -34,7 +34,7 @@ CLAIMED = {
          "trusted: cbmc 6.11.0 (+cvc5 for the product value clauses); dims bounded; a_real_mulTT forms a pointer beyond one-past-the-end of Y (no access) - Y gets slack cells in that unit",
          "bounded symbolic execution of the real kernels with CBMC against definitional postconditions", "5/C09"),
  "C06": ("other",
-         "Bounded symbolic check of the real string code against an abstract byte string: one harness per public operation from an ARBITRARY valid string object (capacity 0/8/16, any length <= capacity, contents symbolic incl. NUL and bytes >= 0x80, terminated or not): setm/setm_, catc, catn, cats, cat, getc, getn, setn, exit, swap, new/die/ctor/dtor, rtrim/ltrim/trim with explicit sets, cmp/cmpn, catv (formatter replaced by its ISO C contract over a ghost output, incl. the output that exactly fills the spare room and growth failure), a_utf_catc; ghost witness bytes for content, exactly sized blocks for memory safety, allocator model may fail at every request. Bounded (capacity/appended length), hence level 'other'.",
+         "Bounded symbolic check of the real string code against an abstract byte string: one harness per public operation from an ARBITRARY valid string object (capacity 0/8/16, any length <= capacity, contents symbolic incl. NUL and bytes >= 0x80, terminated or not): setm/setm_, catc, catn, cats, cat, getc, getn, setn, exit, swap, new/die/ctor/dtor, rtrim/ltrim/trim with explicit sets, cmp/cmpn, catv (formatter replaced by its ISO C contract over a ghost output, incl. the output that exactly fills the spare room and growth failure), a_utf_catc; ghost witness bytes for content, exactly sized blocks for memory safety, allocator model may fail at every request. The loop-free operations are checked a second time with capacity, length and block length symbolic up to 1024 bytes (4096 thorough) on one large array (in-place allocator stub, memcpy abstracted to a ghost witness byte): every distance from the reallocation boundary. Bounded (capacity/appended length), hence level 'other'.",
          "trusted: cbmc 6.11.0 (MiniSat/CaDiCaL), byte-loop memcpy/memmove/memchr models, cbmc's memcmp/strlen models, vsnprintf contract, allocator model",
          "contract-style Hoare triples per operation checked by CBMC on bounded strings", "5/C06"),
  "C05": ("proof",
